@@ -102,6 +102,7 @@ type Exec struct {
 	sends       []*CallRec
 	ownCheck    bool
 	nameCount   map[string]int
+	recDone     map[*Term]bool
 	borrowed    map[*Term]string // array ids / refs owned by the caller
 }
 
@@ -269,7 +270,23 @@ func (ex *Exec) locOf(v Val) *Loc {
 		// array objects live in slice memory so that they can be sliced and indexed uniformly
 		return &Loc{Mem: true, RootT: at.Elem(), Ref: v.L[0], T: pt.Elem()}
 	}
+	if ex.ld.elemPtrTypes[typeKey(types.Unalias(pt.Elem()))] {
+		p := v.L[0]
+		if !p.IsConst() {
+			alt := &Loc{Mem: true, RootT: pt.Elem(), Ref: App("ptr_arr", IntS, p), EIdx: App("ptr_idx", BVS(64), p), T: pt.Elem()}
+			return &Loc{RootT: pt.Elem(), Ref: p, T: pt.Elem(), Alt: alt, Cond: IntLt(p, IntC(elemPtrBase))}
+		}
+	}
 	return &Loc{RootT: pt.Elem(), Ref: v.L[0], T: pt.Elem()}
+}
+
+const elemPtrBase = -10000000
+
+// encodeElemPtr gives a slice-element pointer a first-class (storable) reference value.
+func (ex *Exec) encodeElemPtr(st *State, loc *Loc) *Term {
+	p := App("elemptr_"+sanitize(normKey(loc.RootT)), IntS, loc.Ref, loc.EIdx)
+	ex.assume(st, And(Eq(App("ptr_arr", IntS, p), loc.Ref), Eq(App("ptr_idx", BVS(64), p), loc.EIdx), IntLt(p, IntC(elemPtrBase))))
+	return p
 }
 
 // refFacts adds heap well-formedness facts for freshly loaded reference leaves.
@@ -575,7 +592,10 @@ func (ex *Exec) execLoop(fr *Frame, loops map[*ssa.BasicBlock]*loopInfo, li *loo
 		lc = fr.fc.Loops[ord]
 	}
 	if lc == nil {
-		panic(unsupported(fmt.Sprintf("loop %d of %s has no invariant", ord, fnKey(fr.fn))))
+		// no invariant given: the loop is cut with the invariant `true` (sound over-approximation);
+		// termination is not proved for it
+		lc = &LoopContract{}
+		ex.notes = append(ex.notes, fmt.Sprintf("loop %d of %s: no invariant (true); termination not proved", ord, fnKey(fr.fn)))
 	}
 	lname := fmt.Sprintf("loop%d", ord)
 	// entry state and phi entry values
@@ -697,7 +717,8 @@ func (ex *Exec) execLoop(fr *Frame, loops map[*ssa.BasicBlock]*loopInfo, li *loo
 				return
 			}
 			var idx []*Term
-			ok := srt.K == KArray && collectStoreIdx(final, initial, &idx, mark, 0)
+			ok := srt.K == KArray && collectStoreIdx(final, storeRoot(initial), &idx, mark, 0) &&
+				collectStoreIdx(initial, storeRoot(initial), &idx, mark, 0)
 			if !ok {
 				havoc[k] = &hv{whole: true}
 				grew = true
@@ -805,6 +826,14 @@ func currentVarMark() int {
 	termMu.Lock()
 	defer termMu.Unlock()
 	return varCount
+}
+
+// storeRoot strips the leading chain of stores.
+func storeRoot(t *Term) *Term {
+	for t.Op == "store" {
+		t = t.Args[0]
+	}
+	return t
 }
 
 // collectStoreIdx: final must be initial with stores (possibly under ites) at loop-invariant indices.
@@ -935,6 +964,12 @@ func (ex *Exec) execInstr(fr *Frame, st *State, ins ssa.Instruction) {
 		nl := *base
 		nl.Off = base.Off + f.Off
 		nl.T = f.T
+		if base.Alt != nil {
+			al := *base.Alt
+			al.Off = base.Alt.Off + f.Off
+			al.T = f.T
+			nl.Alt = &al
+		}
 		fr.regs[x] = Val{T: x.Type(), Loc: &nl}
 	case *ssa.Index:
 		xv := ex.val(fr, x.X)
@@ -1106,7 +1141,11 @@ func (ex *Exec) indexAddr(fr *Frame, st *State, x *ssa.IndexAddr) Val {
 	case *types.Slice:
 		ex.oblige(fr, st, "safety", "safety:index["+src+"]", x.Pos(), src,
 			And(BVCmp("bvsle", BVI(0, 64), idx), BVCmp("bvslt", idx, sliceLen(xv))))
-		return Val{T: x.Type(), Loc: sliceElemLoc(xv, idx)}
+		el := sliceElemLoc(xv, idx)
+		if ex.ld.elemPtrTypes[typeKey(types.Unalias(el.T))] {
+			return Val{T: x.Type(), Loc: el, L: []*Term{ex.encodeElemPtr(st, el)}}
+		}
+		return Val{T: x.Type(), Loc: el}
 	case *types.Pointer:
 		ex.nilCheck(fr, st, xv, x.Pos(), x.X)
 		at := u.Elem().Underlying().(*types.Array)
